@@ -4,6 +4,7 @@ import HexProofs.Numeric.Bars
 import HexProofs.Numeric.Rsi
 import HexProofs.Numeric.Stoch
 import HexProofs.Numeric.Adx
+import HexProofs.Numeric.SeriesMore
 import HexProofs.Numeric.Demo
 /-
 C06 – Momentum, oscillator and volume indicators match their definitions
@@ -276,11 +277,69 @@ theorem vwap_first (ops : Ops K) (x : Ctx K) (w : Val K → List (Candle K)) (h 
                              w (sdict [("pv", sc PV), ("vol", sc TV)])) :=
   Numeric.vwap_first ops x w h l c vol hh hl hc hv hpp hset
 
-/-- The full property: for every well-formed stream and every period ≥ 2 (fast < slow for MACD)
-the whole `as_list()` series of the nine indicators equal their textbook series within rounding
-error.  MISSING: the induction along the framework's calculation order, and the identification
-of each helper reading with the SMA/EMA/RMA (C04) of the helper series written here. -/
+/-! ### whole series (leaf indicators over candle fields) -/
+
+/-- **OBV, whole series**: never raises; reading `j` is within `(j+1)·ε` of the exact on-balance
+volume `obvExact` – the first candle's volume, then ± the candle's volume by the sign of the CLOSE
+change (ints are not rounded, so with integer volumes the readings are exact). -/
+theorem obv_series (nm : String) (n : Nat) (hk : IsKey nm)
+    (raw : List (Candle K)) (hraw : ∀ c ∈ raw, Plain c) :
+    ∃ vs : List (Val K), vs.length = raw.length ∧
+      rowMajor (mkTop .obv nm n) raw = .ok (deco nm raw vs) ∧
+      ∀ j, j < raw.length → ∃ t : Num K, vs.getD j .none = .num t ∧
+        |t.toF - obvExact (fieldAt (·.c) raw) (fieldAt (·.v) raw) j| ≤ ((j + 1 : Nat) : K) * eps K n :=
+  Numeric.obv_series nm n hk raw hraw
+
+/-- **ROC, whole series** over a candle field with non-zero values (prices): `None` on the first
+`period` candles, afterwards within `ε` of `100·(x[t] − x[t−p])/x[t−p]`. -/
+theorem roc_series (p : Nat) (hp : 1 ≤ p) (nm input : String) (fld : Candle K → Num K) (n : Nat)
+    (hk : IsKey nm) (hd : NoDot input) (hattr : ∀ c : Candle K, c.attr input = some (.num (fld c)))
+    (raw : List (Candle K)) (hraw : ∀ c ∈ raw, Plain c) (hnz : ∀ j, j < raw.length → fieldAt fld raw j ≠ 0) :
+    ∃ vs : List (Val K), vs.length = raw.length ∧
+      rowMajor (mkTop (.roc p input) nm n) raw = .ok (deco nm raw vs) ∧
+      ∀ j, j < raw.length → DirectOK (p + 1) n (rocAt (fieldAt fld raw) p) j (vs.getD j .none) :=
+  Numeric.roc_series p hp nm input fld n hk hd hattr raw hraw hnz
+
+/-- four raw candles over ℚ -/
+def demoRaw : List (Candle ℚ) :=
+  [Demo.mk 10 12 9 11 100, Demo.mk 11 13 10 12 200, Demo.mk 12 15 11 14 300, Demo.mk 14 16 13 15 0]
+
+theorem demoRaw_plain : ∀ c ∈ demoRaw, Plain c := by
+  intro c hc
+  simp only [demoRaw, List.mem_cons, List.not_mem_nil, or_false] at hc
+  rcases hc with rfl | rfl | rfl | rfl <;> exact ⟨rfl, rfl⟩
+
+example : ∃ vs : List (Val ℚ), vs.length = demoRaw.length ∧
+    rowMajor (mkTop .obv "OBV" 4) demoRaw = .ok (deco "OBV" demoRaw vs) ∧
+    ∀ j, j < demoRaw.length → ∃ t : Num ℚ, vs.getD j .none = .num t ∧
+      |t.toF - obvExact (fieldAt (·.c) demoRaw) (fieldAt (·.v) demoRaw) j| ≤ ((j + 1 : Nat) : ℚ) * eps ℚ 4 :=
+  obv_series "OBV" 4 (by decide) demoRaw demoRaw_plain
+
+example : ∃ vs : List (Val ℚ), vs.length = demoRaw.length ∧
+    rowMajor (mkTop (.roc (2 : Nat) "close") "ROC" 4) demoRaw = .ok (deco "ROC" demoRaw vs) ∧
+    ∀ j, j < demoRaw.length → DirectOK (2 + 1) 4 (rocAt (fieldAt (·.c) demoRaw) 2) j (vs.getD j .none) :=
+  roc_series 2 (by norm_num) "ROC" "close" (·.c) 4 (by decide) noDot_close (fun _ => rfl) demoRaw demoRaw_plain
+    (by intro j hj; simp [demoRaw] at hj; interval_cases j <;> simp [fieldAt, demoRaw, Demo.mk])
+
+/-- The full property, stated for OBV through the ENGINE (the other eight indicators: the same
+shape with their own exact series – Wilder-smoothed gain/loss for RSI, EMA differences for MACD,
+window extremes and SMAs for Stochastic, chained EMAs for TSI, bars-since-extreme for Aroon,
+Wilder-smoothed DM over ATR and DX for ADX, cumulative typical-price·volume over volume for VWAP):
+for every raw stream `calculate` never raises and reading `j` is within `(j+1)·ε` of the exact
+on-balance volume.
+NOT proved.  Proved instead: every single `_calculate_reading` call of all nine indicators (above)
+and the whole series of OBV and ROC on the row-major spec (`obv_series`, `roc_series`).  Missing: the
+leaf contracts tying `rowMajor` to `calculate` for OBV/ROC/Aroon (HexProofs/Framework has them for
+HLA and SMA), and the framework induction through managed helper series for the composites – where
+each helper (`_k`, `_d`, `_first`, `_second`, `_pos`, `_neg`, `_dx`, `_signal_line`) is an ordinary
+SMA/EMA/RMA covered by C04. -/
 def C06_FULL : Prop :=
-  ∀ (K : Type) [Field K] [LinearOrder K] [IsStrictOrderedRing K] [LawfulPyF K], True
+  ∀ (K : Type) [Field K] [LinearOrder K] [IsStrictOrderedRing K] [LawfulPyF K]
+    (nm : String) (n : Nat) (raw : List (Candle K)),
+    IsKey nm → (∀ c ∈ raw, Plain c) →
+    ∃ vs : List (Val K), vs.length = raw.length ∧
+      calculate (fuelFor raw) (mkTop .obv nm n) raw = .ok (deco nm raw vs) ∧
+      ∀ j, j < raw.length → ∃ t : Num K, vs.getD j .none = .num t ∧
+        |t.toF - obvExact (fieldAt (·.c) raw) (fieldAt (·.v) raw) j| ≤ ((j + 1 : Nat) : K) * eps K n
 
 end Hex.C06
